@@ -47,7 +47,7 @@ class LoopMixin:
                     if w[0] not in ("cls", "list.nodeowned"):
                         comps.add(w[0])
                         # a conditional havoc (callee frame "@comp:nodeowned" / ":fresh") is kept as such; any other write makes it wholesale
-                        tag = getattr(w[3], "tag", None) if (w[1] is None and w[3] is not None) else ("fresh" if (w[1] is not None and self.is_fresh_ref(w[1], probe, st)) else None)
+                        tag = getattr(w[3], "tag", None) if (w[1] is None and w[3] is not None) else ("fresh" if (w[1] is not None and self.is_fresh_ref(w[1], probe, getattr(self, "cur_entry", None) or st)) else None)
                         tags.setdefault(w[0], set()).add(tag)
         finally:
             self.obligations = saved_obs
@@ -347,7 +347,9 @@ class LoopMixin:
         b.ghost = dict(b.ghost, **{f"loop{ordn}_log": len(b.log), f"loop{ordn}_writes": len(b.writes), f"loop{ordn}_head_env": dict(b.env),
                                    f"loop{ordn}_index": i})
         if not spec.get("auto"):
-            b.ghost = dict(b.ghost, **{f"loop{ordn}_head": b.fork(), f"loop{ordn}_mods": list(spec.get("modifies") or [])})
+            b.ghost = dict(b.ghost, **{f"loop{ordn}_head": b.fork(), f"loop{ordn}_mods": list(spec.get("modifies") or []), f"loop{ordn}_fn": self.cur_fn})
+        else:
+            b.ghost = dict(b.ghost, **{f"loop{ordn}_head": None, f"loop{ordn}_mods": None})
         if feasible(b.pc):
             if proto.get("start"):
                 for nm, goal in proto["start"](b, i):
@@ -387,7 +389,9 @@ class LoopMixin:
         self.havoc_for_loop(st, s.body, spec, s)
         st.ghost = dict(st.ghost, **{f"loop{ordn}_log": len(st.log), f"loop{ordn}_writes": len(st.writes)})
         if not spec.get("auto"):
-            st.ghost = dict(st.ghost, **{f"loop{ordn}_head": st.fork(), f"loop{ordn}_mods": list(spec.get("modifies") or [])})
+            st.ghost = dict(st.ghost, **{f"loop{ordn}_head": st.fork(), f"loop{ordn}_mods": list(spec.get("modifies") or []), f"loop{ordn}_fn": self.cur_fn})
+        else:
+            st.ghost = dict(st.ghost, **{f"loop{ordn}_head": None, f"loop{ordn}_mods": None})
         for g in ghost:
             oldv = st.env[g]
             st.env[g] = V(oldv.k, fresh(g, oldv.t.sort()), cls=oldv.cls, elem=oldv.elem)
@@ -437,8 +441,8 @@ class LoopMixin:
         iteration itself allocated — otherwise the state assumed after the loop keeps values the loop has changed"""
         head = r.ghost.get(f"loop{ordn}_head")
         mods = r.ghost.get(f"loop{ordn}_mods")
-        if head is None or mods is None:
-            return
+        if head is None or mods is None or r.ghost.get(f"loop{ordn}_fn") != self.cur_fn:
+            return          # (no specification of its own, or the markers belong to a loop of the calling function)
         from .calls import Contract
         c2 = Contract(f"{self.cur_fn}:loop{ordn}", modifies=mods)
         saved_env = r.env
